@@ -920,6 +920,8 @@ class TFLiteSupportedOperators:
         else:
             axis = list(op.inputs[1].values)
 
+        axis = [ax + len(shape) if ax < 0 else ax for ax in axis]
+
         # The width is the second last dimension (the shape is extended to NHWC from the left)
         width_idx = len(shape) - 2
         w = shape[width_idx]
@@ -944,6 +946,7 @@ class TFLiteSupportedOperators:
             axis = list(op.inputs[1].values)
 
         depth_idx = len(shape) - 1
+        axis = [ax + len(shape) if ax < 0 else ax for ax in axis]
 
         supported = True
         if depth_idx in axis and shape[-1] > max_depth:
